@@ -1,7 +1,7 @@
 (* C05 - Handlers bind each parameter from its declared source and enforce requiredness.
    Conversion part: every representable value of the declared type survives text -> value. *)
 From Gleece Require Import Base.Bytes Model.Bind Proofs.BindProofs Model.Project Model.Spec Model.Router
-     Model.RouterParams Proofs.RouterParamsProofs Proofs.CrossProofs.
+     Model.RouterParams Proofs.RouterParamsProofs Proofs.CrossProofs Model.Security Model.Handler Proofs.HandlerProofs.
 From Coq Require Import String.
 Open Scope N_scope.
 
@@ -76,6 +76,59 @@ Example C05_nonvacuous :
   in_range PInt (VInt (-9223372036854775808)) = true.
 Proof. exact bind_demo. Qed.
 
+
+(* ---- whole requests: the engine-independent handler model (Model/Handler.v), compared with each of
+   the five compiled routers on every request of this check (pygen/handlermodel.py) ---- *)
+
+(* what reaches the method: for each parameter, in signature order, the conversion of what the request
+   carries at its declared location under its wire name - or nil when it is absent and unvalidated *)
+Theorem C05_handler_args : forall cfg c m tbl sc rq tr cn mn args st,
+  handle cfg c m tbl sc rq = (tr, Invoked cn mn args st) ->
+  cn = c_name c /\ mn = m_name m /\
+  st = status_code sc (match m_ret m with Some _ => true | None => false end) /\
+  exists authn, Forall2 (arg_spec authn rq) (m_params m) args.
+Proof. exact handle_invoked_args. Qed.
+
+(* a parameter documented as required and absent from its location is never bound ... *)
+Theorem C05_absent_required_not_bound : forall authn rq p,
+  scalar_param p -> param_required p = true ->
+  (lookup (rq_fields rq) (pa_loc p) (wire_name p) = None \/ lookup (rq_fields rq) (pa_loc p) (wire_name p) = Some []) ->
+  forall a, bind_param authn rq p <> BArg a.
+Proof. exact absent_required_not_bound. Qed.
+
+(* ... a present text that is no representation of the declared type is refused ... *)
+Theorem C05_unconvertible_rejected : forall authn rq p ty raw rest,
+  scalar_param p -> prim_of (pa_type p) = Some ty ->
+  lookup (rq_fields rq) (pa_loc p) (wire_name p) = Some (raw :: rest) -> convert ty raw = None ->
+  bind_param authn rq p = BReject.
+Proof. exact unconvertible_not_bound. Qed.
+
+(* ... and a method with such a parameter is not invoked, whatever the other parameters carry *)
+Theorem C05_bad_param_never_invoked : forall cfg c m tbl sc rq p,
+  In p (m_params m) -> (forall authn a, bind_param authn rq p <> BArg a) ->
+  forall tr cn mn args st, handle cfg c m tbl sc rq <> (tr, Invoked cn mn args st).
+Proof. exact handle_bad_param_never_invoked. Qed.
+
+(* the 422 names the FIRST parameter, in signature order, that fails *)
+Theorem C05_rejected_first : forall cfg c m tbl sc rq tr n,
+  handle cfg c m tbl sc rq = (tr, Rejected n) ->
+  exists authn pre p post, m_params m = pre ++ p :: post /\ pa_name p = n /\
+    bind_param authn rq p = BReject /\ forall q, In q pre -> exists a, bind_param authn rq q = BArg a.
+Proof. exact handle_rejected_first. Qed.
+
+(* round trip through the handler: every representable value of the declared type arrives unchanged *)
+Theorem C05_handler_roundtrip : forall authn rq p ty v rest,
+  scalar_param p -> prim_of (pa_type p) = Some ty -> only_required (reduced_validator p) ->
+  in_range ty v = true ->
+  lookup (rq_fields rq) (pa_loc p) (wire_name p) = Some (print v :: rest) ->
+  bind_param authn rq p = BArg (AVal (Some v)).
+Proof. exact bind_param_roundtrip. Qed.
+
+Example C05_handler_nonvacuous :
+  snd (handle demo_cfg demo_ctrl demo_method [] (mkOp false None) (demo_rq "128" "7")) = Rejected (s "id") /\
+  snd (handle demo_cfg demo_ctrl demo_method [] (mkOp false None) (demo_rq "5" "2")) = Rejected (s "q").
+Proof. exact (conj demo_rejected_range demo_rejected_rule). Qed.
+
 Print Assumptions C05_decimal_roundtrip.
 Print Assumptions C05_uint_roundtrip.
 Print Assumptions C05_int_roundtrip.
@@ -88,3 +141,10 @@ Print Assumptions C05_translated_handler_sound.
 Print Assumptions C05_wire_names.
 Print Assumptions C05_documented_params_are_bound.
 Print Assumptions C05_nonvacuous.
+Print Assumptions C05_handler_args.
+Print Assumptions C05_absent_required_not_bound.
+Print Assumptions C05_unconvertible_rejected.
+Print Assumptions C05_bad_param_never_invoked.
+Print Assumptions C05_rejected_first.
+Print Assumptions C05_handler_roundtrip.
+Print Assumptions C05_handler_nonvacuous.
